@@ -12,11 +12,13 @@ package c03
 
 import (
 	"bytes"
+	"errors"
 	"fmt"
 	"math/big"
 	"os"
 	"path/filepath"
 	"runtime/debug"
+	"strings"
 
 	"go.sia.tech/core/types"
 	"go.sia.tech/coreutils/chain"
@@ -53,6 +55,17 @@ func encode(v types.EncoderTo) []byte {
 func heavier(a, b *chainx.B) bool {
 	th := new(big.Int).Add(b.Work, new(big.Int).Div(b.Diff, big.NewInt(5)))
 	return a.Work.Cmp(th) > 0
+}
+
+// Opt tunes the histories started while it is set (the directed builders set and reset it).
+var Opt struct {
+	// NoArm: no forced flushes at all; the store commits only where it does on its own (the end of
+	// every reorg), so a whole failed-and-rolled-back reorg lies inside one uncommitted window
+	NoArm bool
+	// FlushFaultAt k > 0: the k-th commit the store issues from inside ApplyBlock/RevertBlock fails at
+	// the database, which discards the batch.  The store's answer to that is to panic (the process
+	// dies: a stop like any other); carrying on is the failure `failed-commit-ignored`.
+	FlushFaultAt int
 }
 
 // History runs one schedule with commit points forced, then reopens every commit point.
@@ -124,7 +137,26 @@ func HistoryVia(r *vh.Run, name string, t *chainx.Tree, ids *c02.IDs, decls map[
 	rec.OnBeforeFlush = func() {
 		checkCommitted(fmt.Sprintf("before the Flush after %d store ops (batch %d)", storeOps, curBatch))
 	}
-	c02.ProbeNext = kind == "cache" // the CacheDB runs also carry the atomicity probe of chainx
+	noArm, faultAt := Opt.NoArm, Opt.FlushFaultAt
+	midFlushes, injectedAt := 0, ""
+	if faultAt > 0 {
+		c.Model = "" // the model has no failing commit; these histories are oracle-only
+		c.Tags = append(c.Tags, "directed:commit-failure-inside-reorg")
+		rec.FailFlush = func() error {
+			if !inOp || injectedAt != "" {
+				return nil
+			}
+			midFlushes++
+			if midFlushes != faultAt {
+				return nil
+			}
+			injectedAt = fmt.Sprintf("store op %d of batch %d", storeOps, curBatch)
+			return errors.New("c03: injected commit failure (batch discarded)")
+		}
+	}
+	// the MemDB runs also carry the atomicity probe of chainx (not the CacheDB ones: a late probe
+	// would read through CacheDB.Bucket, which writes, concurrently with the harness's own reads)
+	c02.ProbeNext = kind == "mem"
 	rig, err = c02.NewRig(c, t, ids, decls, rec)
 	c02.ProbeNext = false
 	if err != nil {
@@ -134,10 +166,13 @@ func HistoryVia(r *vh.Run, name string, t *chainx.Tree, ids *c02.IDs, decls map[
 	}
 	armed := false
 	rig.CommitMode = true
+	if faultAt > 0 {
+		rig.ExpectedPanic = "injected commit failure"
+	}
 	rig.OnBefore = func(apply bool, id int) {
 		inOp = true
 		storeOps++
-		armed = armAll || rng.Chance(1, 2)
+		armed = !noArm && (armAll || rng.Chance(1, 2))
 		if armed {
 			rig.Node.Store.VerifForceFlushNext()
 		}
@@ -160,12 +195,25 @@ func HistoryVia(r *vh.Run, name string, t *chainx.Tree, ids *c02.IDs, decls map[
 		return "h 0 tip ?"
 	}
 	rig.Prelude()
+	crashed := false
 	flushesBefore := rec.Flushes
 	reorgLens := map[int]bool{}
 	for i, batch := range sched {
 		curBatch = i
 		opsBefore := rig.Applies + rig.Reverts
 		res := rig.SubmitVia(batch, via[i])
+		if injectedAt != "" && !crashed {
+			if res == "panic" && strings.Contains(rig.PanicMsg, "injected commit failure") {
+				// the store refused to go on without its commit: the process stops here, like at any
+				// other moment; what is durable is the last successful commit
+				crashed = true
+				rig.Panicked = false
+				c.Tags = append(c.Tags, "commit-failure:process-stopped")
+				break
+			}
+			c.Oracle("failed-commit-ignored", "the commit issued inside %s failed at the database (batch discarded) and AddBlocks carried on (%s); the database now lacks the writes of that batch", injectedAt, res)
+			crashed = true // report once; the run continues so that the consequences show
+		}
 		if res == "panic" {
 			if len(c.Fails) == 0 {
 				c.Oracle("addblocks-panic", "AddBlocks panicked on batch %v: %s", batch, rig.PanicMsg)
@@ -188,6 +236,19 @@ func HistoryVia(r *vh.Run, name string, t *chainx.Tree, ids *c02.IDs, decls map[
 	}
 	finalTip := rig.Node.CM.Tip()
 	finalState := encode(rig.Node.CM.TipState())
+	if faultAt > 0 {
+		// the uninterrupted run is a separate, undisturbed node
+		ref, err := c02.NewRig(&vh.Case{Name: "reference"}, t, ids, decls, chain.NewMemDB())
+		if err != nil {
+			panic(err)
+		}
+		ref.Quiet = true
+		for i, batch := range sched {
+			ref.SubmitVia(batch, via[i])
+		}
+		finalTip = ref.Node.CM.Tip()
+		finalState = encode(ref.Node.CM.TipState())
+	}
 	finalID, _ := t.Lookup(finalTip.ID)
 	tipsSeen := map[string]bool{"0": true}
 	for _, id := range rig.Tips {
@@ -229,7 +290,9 @@ func HistoryVia(r *vh.Run, name string, t *chainx.Tree, ids *c02.IDs, decls map[
 			c.Tags = append(c.Tags, "reorg-2..8-ops")
 		}
 	}
-	if armAll {
+	if noArm {
+		c.Tags = append(c.Tags, "arm:none")
+	} else if armAll {
 		c.Tags = append(c.Tags, "arm:every-boundary")
 	} else {
 		c.Tags = append(c.Tags, "arm:random-boundaries")
@@ -488,6 +551,72 @@ func DirectedFailingReorg(r *vh.Run, rng *vh.RNG, name string, maxReopen int, pu
 	}
 }
 
+// DirectedCommitFailure: ordinary fork histories in which one commit issued from inside
+// ApplyBlock/RevertBlock fails at the database and the batch is discarded.
+func DirectedCommitFailure(r *vh.Run, rng *vh.RNG, name string, maxReopen int) {
+	net := c02.StoreNet(rng)
+	var t *chainx.Tree
+	cfg := chainx.GenCfg{Main: 7 + rng.Intn(5), Forks: 3, MaxBranch: 6, Kinds: c02.Menu(), TxPerBlk: 2}
+	if msg := c02.Guarded(func() { t = chainx.GenTree(rng, net, cfg) }); msg != "" {
+		c := &vh.Case{Name: name}
+		c.Oracle("generator-block-rejected", "%s", msg)
+		r.Add(c)
+		return
+	}
+	ids := c02.NewIDs()
+	decls := c02.Declare(t, ids)
+	sched := t.Schedule(rng)
+	for _, kind := range []string{"mem", "cache", "bolt"} {
+		Opt.FlushFaultAt = 2 + rng.Intn(8)
+		HistoryVia(r, name+"/"+kind, t, ids, decls, sched, make([]bool, len(sched)), kind, rng.Fork(), true, maxReopen)
+		Opt.FlushFaultAt = 0
+	}
+}
+
+// DirectedRolledBackQuiet: a reorg that fails and is rolled back inside ONE uncommitted window (no
+// forced flushes), with the reverted blocks carrying no transactions: reverting them only deletes
+// from the siacoin bucket, re-applying them puts the very same keys again, and the commit at the end
+// of the rollback has to keep them.  The node sits on a chain ending in empty v2 blocks E1 E2 E3; a
+// branch forks off E1 whose first block E2' is header-valid and body-invalid (wrong commitment) and
+// which is extended until it is heavier.
+func DirectedRolledBackQuiet(r *vh.Run, rng *vh.RNG, name string, maxReopen int) {
+	net := chainx.NewNet(rng, 1, 60, 2)
+	t := chainx.NewTree(net)
+	tip := 0
+	bad := -1
+	var e []int
+	msg := c02.Guarded(func() {
+		for i := 0; i < 3+rng.Intn(3); i++ {
+			tip = t.Mine(rng, tip, chainx.Spec{Kinds: []string{"v1pay", "v2pay", "v1fc"}, Dt: 1})
+		}
+		for i := 0; i < 3; i++ {
+			tip = t.Mine(rng, tip, chainx.Spec{Dt: 1})
+			e = append(e, tip)
+		}
+		bad = t.Corrupt(rng, e[1], "commitment")
+	})
+	if msg != "" || bad < 0 || !t.Blocks[bad].HdrOk || t.Blocks[bad].BodyOk {
+		c := &vh.Case{Name: name, Tags: []string{"directed:rolled-back-quiet-not-built"}}
+		if msg != "" {
+			c.Oracle("generator-block-rejected", "%s", msg)
+		}
+		r.Add(c)
+		return
+	}
+	at := bad
+	for t.Blocks[at].Height <= t.Blocks[tip].Height+1 {
+		at = t.MineEmpty(rng, at, 1)
+	}
+	sched := [][]int{t.PathFromRoot(tip), t.PathFromRoot(at)}
+	ids := c02.NewIDs()
+	decls := c02.Declare(t, ids)
+	for _, kind := range []string{"mem", "cache", "bolt"} {
+		Opt.NoArm = true
+		HistoryVia(r, name+"/"+kind, t, ids, decls, sched, make([]bool, len(sched)), kind, rng.Fork(), false, maxReopen)
+		Opt.NoArm = false
+	}
+}
+
 func Run(r *vh.Run) {
 	// memory faults of the real code (a write into bbolt's read-only mmap) become panics, which
 	// the per-call recovers turn into oracle failures naming the commit point / history
@@ -536,6 +665,15 @@ func Run(r *vh.Run) {
 			for _, kind := range []string{"mem", "bolt"} {
 				HistoryVia(r, fmt.Sprintf("side-then-prevalidated%d/%s", i, kind), t, ids, decls, sched, via, kind, vrng.Fork(), true, maxReopen)
 			}
+		})
+	}
+	for i := 0; i < r.Pick(2, 20); i++ {
+		qrng, frng := rng.Fork(), rng.Fork()
+		c02.Safely(r, fmt.Sprintf("rolled-back-quiet%d", i), func() {
+			DirectedRolledBackQuiet(r, qrng, fmt.Sprintf("rolled-back-quiet%d", i), maxReopen)
+		})
+		c02.Safely(r, fmt.Sprintf("commit-failure%d", i), func() {
+			DirectedCommitFailure(r, frng, fmt.Sprintf("commit-failure%d", i), maxReopen)
 		})
 	}
 	r.Assume("the atom of durability is chain.DB.Flush: torn writes inside bbolt's commit, fsync and OS power-loss semantics are not modelled or exercised")
